@@ -775,6 +775,9 @@ inductive RoundStep
   | workerQuit
   /-- `wg.Wait()` returns -/
   | join
+  /-- repaired code (0194f79) only: a worker whose round has ended (`ctx` cancelled) gives up
+  reporting its response (`select { case respChan <- resp: case <-ctx.Done(): return }`) -/
+  | dropSend
 deriving DecidableEq, Repr
 
 def Round.step (s : Round) : RoundStep → Option Round
@@ -805,8 +808,26 @@ def Round.step (s : Round) : RoundStep → Option Round
   | .join =>
     if !s.reading ∧ s.busyOld = 0 ∧ s.busyNew = 0 ∧ s.idle = 0 ∧ !s.joined then some { s with joined := true }
     else none
+  | .dropSend => none
 
+/-- the code as it was (blocking send) -/
 def roundSys : Sys Round RoundStep := ⟨Round.step⟩
+
+/-- the repaired code: every exit of the orchestration loop cancels the round's context before it
+waits for the workers (`reading = false` ⇒ `ctx` cancelled), and a worker's send gives up then -/
+def Round.stepFixed (s : Round) : RoundStep → Option Round
+  | .dropSend =>
+    if !s.reading then
+      if 0 < s.busyOld then some { s with busyOld := s.busyOld - 1 }
+      else if 0 < s.busyNew then some { s with busyNew := s.busyNew - 1 }
+      else none
+    else none
+  | a => s.step a
+
+def roundSysFixed : Sys Round RoundStep := ⟨Round.stepFixed⟩
+
+def Round.canStepFixed (s : Round) : Bool :=
+  [RoundStep.assign, .respondOk, .respondErr, .dropSend, .workerQuit, .join].any fun a => (s.stepFixed a).isSome
 
 /-- responses that may still be sent once the orchestrator has stopped reading, plus those already
 in the channel -/
